@@ -33,7 +33,7 @@ def _chunks(*files):
 GEN1_FILES = ("GenCore", "GenKOps", "GenKFns", "GenKCtor", "GenRegs")
 GEN2_FILES = ("GenPre", "GenQuant", "GenQProb", "GenOps", "GenBits", "GenH", "GenCtors", "GenQft", "GenSample", "GenVirtl", "GenExtOp",
               "GenCreg", "GenMeas", "GenSym", "GenInt", "GenMatrix", "GenMacro")
-GEN2_MODULES = _chunks(*GEN2_FILES) + ["Qvnt.Lemmas.GenTwins"]
+GEN2_MODULES = _chunks(*GEN2_FILES) + ["Qvnt.Lemmas.GenTwins", "Qvnt.Lemmas.GenThreads"]
 
 
 def tie(theorems, modules=None, audit=None, sources=".*"):
@@ -129,7 +129,7 @@ PROPS = {
     },
     "C08": {
         "modules": ["Qvnt.Props.C08"],
-        "tie": [tie(r"forEachPar_eq|forEachTwins_true", sources=r"UNSUPPORTED dispatch\.rs"), tie2(r"parTwins_all", r"UNSUPPORTED .*parallel arm differs")],
+        "tie": [tie(r"forEachPar_eq|forEachTwins_true", sources=r"UNSUPPORTED dispatch\.rs"), tie2(r"parTwins_all|th_and_eq|quant_num_threads_eq", r"UNSUPPORTED (.*parallel arm differs|quant\.rs: register/quant\.rs::(and|num_threads))")],
         "suites": [suite("c08", dict(count=250, max_n=7), dict(count=2500, max_n=8, big=1))],
         "mismatch_tags": [r"threads", r"par", r"qreg"],
         "spec_tags": [r"c08\..*"],
@@ -137,7 +137,7 @@ PROPS = {
         "assumptions": ASSUME_COMMON + ["PARTIAL by nature: the interleavings rayon actually produces cannot be enumerated and f64 reduction order is not associative; the theorem covers every schedule abstractly under the rayon contract, the c08 suite (same script with 1 and k threads, repeated, registers up to 2^14 amplitudes in thorough) is supporting exploration"],
         "level_text": "Lean theorems (Props/C08.lean): an element-wise fill visited in ANY order that covers every index (each once, or repeatedly) yields the same buffer as the sequential loop, whatever the buffer held before (C08_fill, C08_fill_repeats, C08_fill_two_schedules) - this is schedule independence of every sweep in dispatch.rs / quant.rs, generic in the closure; any two reduction trees over the same leaves give the same sum under associativity, any permutation under commutativity (and f64 is neither, which is why sums are promised to rounding only); num_threads accepts exactly 0 < k <= available; the threading-model join is commutative, associative, Single neutral. Tied to the code by running identical scripts (apply of random circuits, collapse, normalize, tensor products, probabilities) single-threaded and with k = 2..16 threads, repeated, and comparing bit patterns (sums to rounding), plus the refusal of 0 / too many threads.",
         "level_note": "Trusted: Lean kernel + standard axioms; the rayon contract; that every parallel loop has the same closure as its sequential twin is established by the bit-for-bit comparison, not by proof.",
-        "technique": tech_tie("parallel sweep is (token-identical to the sequential one), and every `match` on the threading model in quant.rs has a parallel arm that is the sequential arm with rayon adaptors; those are"),
+        "technique": tech_tie("parallel sweep is (token-identical to the sequential one), and every `match` on the threading model in quant.rs has a parallel arm that is the sequential arm with rayon adaptors; the threading model itself (Model::and, QReg::num_threads with the available thread count as an input) is translated too; those are"),
         "design_ref": "DESIGN.md section 5, C08",
     },
     "C11": {
